@@ -1,5 +1,30 @@
 """C18 random value generation yields valid, reproducible values (engine A)."""
-from .. import codec
+import os
+
+from .. import codec, schemagen
+
+# recursion through every container kind; FillRandom must terminate on all of them (depth-limited sizes)
+RECURSIVE_SHAPES = schemagen.PRELUDE + """
+rs.dtree v:int children:(dictionary rs.dtree) = rs.Dtree;
+rs.itree v:int children:(intKeyDictionary rs.itree) = rs.Itree;
+rs.vtree v:int children:(vector rs.vtree) = rs.Vtree;
+rs.vmtree v:int c:(vector (Maybe rs.vmtree)) = rs.Vmtree;
+rs.mutA a:int bs:(dictionary rs.mutB) = rs.MutA;
+rs.mutB b:string as:(vector rs.mutA) = rs.MutB;
+rs.leaf v:int = rs.Tree;
+rs.node l:rs.Tree r:rs.Tree = rs.Tree;
+rs.jnull = rs.Json;
+rs.jnum v:double = rs.Json;
+rs.jstr v:string = rs.Json;
+rs.jarr v:(vector rs.Json) = rs.Json;
+rs.jobj v:(dictionary rs.Json) = rs.Json;
+rs.masked fm:# next:fm.0?rs.masked v:fm.1?int = rs.Masked;
+rs.mvec fm:# subs:fm.2?(vector rs.mvec) name:string = rs.Mvec;
+rs.pairTree p:(pair int (vector rs.pairTree)) = rs.PairTree;
+---functions---
+@read rs.getTree depth:int = rs.Dtree;
+@read rs.getJson q:rs.Json = rs.Json;
+"""
 
 RULE = ("per item and variant: FillRandom with N fixed seeds in a journaled child (2-96 MiB stack cap, memory ulimit): returns; every writer (TL1, TL2, JSON) "
         "accepts the value without error or panic; two fresh objects filled from the same seed encode identically; filling a previously filled object gives "
@@ -10,3 +35,12 @@ RULE = ("per item and variant: FillRandom with N fixed seeds in a journaled chil
 def run(ctx):
     codec.simple_check(ctx, "c18", RULE, [("types", "types", 150), ("fills", "fills", 20000), ("result fills", "result_fills", 500)], 120, 1500,
                        count_keys=("fills", "result_fills"), fill_death_is_violation=True, random_quick=3, random_thorough=30)
+    # recursive shapes with a budget of random draws per value: a filling that does not terminate is observed as such
+    path = os.path.join(ctx.work, "recursive_shapes.tl")
+    open(path, "w").write(RECURSIVE_SHAPES)
+    p = codec.build_pkg(ctx, "recursive_shapes", [path], "tl2all", must=True)
+    t, _ = codec.run_mode(ctx, p, "c18", env={"VERIF_VALUES": 1500 if ctx.tier == "thorough" else 300, "VERIF_DRAW_CAP": 400000000}, fill_death_is_violation=True, mem_gb=8)
+    ctx.cov["rule"] += (" Plus a fixed schema of recursive shapes (recursion through dictionary, int-key dictionary, vector, vector of Maybe, mutual recursion, unions, "
+                        "masked self reference) filled from 300 (thorough 1500) seeds per item with a counting random source: FillRandom may nest at most 700 call frames (a few dozen on a tree "
+                        "that limits depth) and one value may draw at most 4*10^8 random numbers; the largest nesting and number of draws seen are reported.")
+    ctx.require("fills of recursive shapes", t.get("fills", 0), 3000)
